@@ -9,7 +9,10 @@ Driver of C18. One request per sheet:
 * strings are code points joined by `.` (`-` = empty string)
 * `<a|f>` end rule (blank all / blank first), `<0|1>` ladder, `<probe>` a range key asked of every
   attribute, `<titles>` `,`-joined strings: the range keys asked of every ranged attribute
-* rule: `e:<V>` | `c:<str>:<ct>:<V|~>` | `r:<d|s>:<ct>:<0|1>`, joined by `;` (`-` = no rules)
+* rule: `e:<D>` | `c:<str>:<ct>:<D|~>` | `r:<d|s>:<ct>:<0|1>`, joined by `;` (`-` = no rules);
+  default `D`: a `V` (constant), `k<n>` (a counter starting at `n`), `l` (`list`)
+* `readx …`: the rules field holds several rule sets `<numId>!<rules>` joined by `+`
+  (`XlsTableReader(rules_1, …)`); reply: one token per row, the results of the rule sets joined by `&`
 * `V`: `N` | `i<int>` | `s<str>` | `bT` | `bF`
 * sheet: rows joined by `/`, cells joined by `,`; cell `_` | `i<int>` | `t<str>`; `-` = row without
   cells, `=` = sheet without rows. Coordinates are the usual ones (`mkSheet`).
@@ -60,11 +63,17 @@ def showV : StdV → String
   | .list l => "L[" ++ ";".intercalate (l.map showStr) ++ "]"
   | .set l => "T[" ++ ";".intercalate ((sortDedup l).map showStr) ++ "]"
 
+/-- a default: a literal (`lambda: value`), `k<n>` = `itertools.count(n).__next__`, `l` = `list` -/
+def parseD : List Char → Option (Nat → StdV)
+  | ['l'] => some fun _ => .list []
+  | 'k' :: r => (intOf r).map fun n => fun k => .int (n + k)
+  | v => (parseV v).map fun x => fun _ => x
+
 def parseRule (s : List Char) : Option (Rule StdV) :=
   match splitCh ':' s with
-  | [['e'], v] => (parseV v).map .ext
+  | [['e'], v] => (parseD v).map .ext
   | [['c'], t, ct, d] =>
-    match parseStr t, natOf ct, (if d = ['~'] then some none else (parseV d).map some) with
+    match parseStr t, natOf ct, (if d = ['~'] then some none else (parseD d).map some) with
     | some t, some ct, some d => if t = ['*'] then none else some (.col t ct d)
     | _, _, _ => none
   | [['r'], k, ct, o] =>
@@ -110,7 +119,18 @@ def viaOf : List Char → Option Nat
   | ['r','e','a','d'] => some 0
   | ['r','e','a','d','t'] => some 1
   | ['r','e','a','d','m'] => some 2
+  | ['r','e','a','d','x'] => some 3
   | _ => none
+
+/-- rule sets of a multi-object reader: `<numId>!<rules>` joined by `+` -/
+def parseSets (s : List Char) : Option (List (Nat × List (Rule StdV))) :=
+  (splitCh '+' s).mapM fun t =>
+    match splitCh '!' t with
+    | [n, rules] =>
+      match natOf n, (if rules = ['-'] then some [] else (splitCh ';' rules).mapM parseRule) with
+      | some n, some rs => some (n, rs)
+      | _, _ => none
+    | _ => none
 
 def outOf (r : Except Err (List (Option (Obj StdV)))) : Out StdV :=
   match r with
@@ -122,6 +142,19 @@ def handle (line : String) : String :=
   | [op, stop, ladder, numId, probe, titles, rules, sheet] =>
     match viaOf op with
     | none => "bad-op"
+    | some 3 =>
+      -- `readx`: XlsTableReader with several rule sets; the `numId` field is ignored, one token per row:
+      -- the results of the rule sets joined by `&`
+      match (if stop = ['a'] then some Stop.blankAll else if stop = ['f'] then some Stop.blankFirst else none),
+            (if ladder = ['1'] then some true else if ladder = ['0'] then some false else none),
+            parseStr probe, (if titles = ['='] then some [] else (splitCh ',' titles).mapM parseStr),
+            parseSets rules, parseSheet sheet with
+      | some stop, some ladder, some probe, some keys, some sets, some rows =>
+        let out := iterTableM stdConv ⟨stop, ladder, sets⟩ (mkSheet rows)
+        " ".intercalate (out.rows.map (fun res =>
+            if res.isEmpty then "row" else "&".intercalate (res.map (showObj probe (sortDedup keys)))) ++
+          [match out.err with | none => "end" | some e => "err:" ++ e.name])
+      | _, _, _, _, _, _ => "bad-op"
     | some via =>
     match (if stop = ['a'] then some Stop.blankAll else if stop = ['f'] then some Stop.blankFirst else none),
           (if ladder = ['1'] then some true else if ladder = ['0'] then some false else none),
@@ -130,7 +163,7 @@ def handle (line : String) : String :=
           (if rules = ['-'] then some [] else (splitCh ';' rules).mapM parseRule),
           parseSheet sheet with
     | some stop, some ladder, some numId, some probe, some keys, some rules, some rows =>
-      let cfg : Cfg StdV := ⟨stop, ladder, numId, rules⟩
+      let cfg : Cfg StdV := ⟨stop, ladder, numId, rules, []⟩
       let out := match via with
         | 0 => iterTable stdConv cfg (mkSheet rows)
         | 1 => outOf (readTable stdConv cfg (mkSheet rows))
